@@ -1,6 +1,7 @@
 /- C12 driver: op lines in, observable lines out (same format as props/C12/harness.cpp). -/
 import TboxModel.Util
 import TboxModel.C12.Pipeline
+import TboxModel.C12.Multi
 import TboxModel.C12.Url
 open Tbox.Util Tbox.C12
 
@@ -38,10 +39,47 @@ def verNames : List String := ["kUnset", "k1_0", "k1_1", "k2_0"]
 def showSt : St → String
   | .init => "init" | .startLine => "startline" | .heads => "heads" | .all => "all" | .fail => "fail"
 
+/-- the server with its connections and the connection the following op lines are about (`on <k>`) -/
+structure Sv where
+  m : MServer
+  cur : Nat
+
+/-- the current connection's record, with the (global) queue of write answers in front of it -/
+def Sv.view (v : Sv) : Server :=
+  match v.m.clients[v.cur]? with
+  | some cl => { cl.srv with wq := v.m.wq }
+  | none => {}
+
+/-- a modelled event of the current connection -/
+def Sv.apply (v : Sv) (op : SrvOp) : Sv := { v with m := v.m.step (.on v.cur op) }
+
+/-- driver-only manipulation of the current connection's record (spec mode of `chalfS`) -/
+def Sv.lift (v : Sv) (s' : Server) : Sv :=
+  { v with m := ({ v.m.setSrv v.cur { s' with wq := [] } with wq := s'.wq }).sync v.cur }
+
 inductive Mode
   | fresh
   | parser (c : Conn)
-  | server (s : Server)
+  | server (v : Sv)
+
+/-- what the OTHER connections see during an op (bytes at their clients: never; end of stream: when the server was stopped)
+and the system calls on the server side of every connection (close when a connection is torn down; nothing else) -/
+def crossLines (v v' : Sv) (threw : Bool) : List String :=
+  if threw then ["M sys -"] else
+  let idx := List.range v'.m.clients.length
+  let valid (m : MServer) (d : Nat) : Bool := ((m.clients[d]?).map (·.srv.pipe.valid)).getD false
+  let bytes (m : MServer) (d : Nat) : Bytes := ((m.clients[d]?).map (·.srv.pipe.peerBytes)).getD []
+  let xs := idx.flatMap fun d =>
+    if d == v.cur then [] else
+    let newly := (bytes v'.m d).drop (bytes v.m d).length
+    (if newly.isEmpty then [] else ["P xout " ++ toString d ++ " " ++ hexOfBytes newly]) ++
+    (if valid v.m d && !valid v'.m d then ["P xeof " ++ toString d] else [])
+  -- `TcpServer::stop()` walks the cabinet cell by cell: the sockets are closed in the order of their cabinet positions
+  let pos (d : Nat) : Nat := ((v'.m.clients[d]?).map (·.tok.pos)).getD 0
+  let closing := (idx.filter fun d => (valid v.m d || d ≥ v.m.clients.length) && !valid v'.m d).mergeSort (fun a b => pos a ≤ pos b)
+  let sys := (idx.filter (· ≥ v.m.clients.length)).map (fun d => "c" ++ toString d ++ ":setfl+nonblock") ++
+    closing.map (fun d => "c" ++ toString d ++ ":close")
+  xs ++ ["M sys " ++ (if sys.isEmpty then "-" else ",".intercalate sys)]
 
 def evTags (evs : List Ev) : List String :=
   evs.map fun e => match e with
@@ -85,8 +123,7 @@ length + FNV-1a digest -/
 def showOut (before after : Pipe) : List String :=
   let newly := after.peerBytes.drop before.peerBytes.length
   [if newly.length > 4096 then "P out len=" ++ toString newly.length ++ " fnv=" ++ hex32 (fnv newly)
-   else "P out " ++ hexOfBytes newly] ++ (if before.valid && !after.valid then ["P eof"] else []) ++
-  ["M shutdown -"]   -- the server never shuts a connection down half-way (harness: shutdown() calls on the server side)
+   else "P out " ++ hexOfBytes newly] ++ (if before.valid && !after.valid then ["P eof"] else [])
 
 def parseKVs? (w : String) : Option (List (Bytes × Bytes)) :=
   if w == "-" then some [] else
@@ -98,16 +135,22 @@ def parseKVs? (w : String) : Option (List (Bytes × Bytes)) :=
     | _ => none
 
 /-- a handler completes request i; in spec mode (after `chalfS`) the server closes once nothing is outstanding -/
-def doDone (tag : String) (s : Server) (i : Nat) (r : Respond) : Option (Server × List String) :=
-  match s.done i r with
-  | none => none
-  | some s' =>
-    let s'' := if s.halfSpec && s'.outstanding.isEmpty && s'.pipe.valid then s'.emit [.drop] else s'
-    some (s'', ["B " ++ tag ++ " " ++ " ".intercalate (pipeTags s.pipe s''.pipe ++ (if s.pipe.wbroken then ["after-write-error"] else []) ++
+def doDone (tag : String) (v : Sv) (i : Nat) (r : Respond) : Option (Sv × List String) :=
+  let s := v.view
+  if !s.outstanding.contains i then none else
+  let v1 := v.apply (.done i r)
+  let s' := v1.view
+  let v2 := if s.halfSpec && s'.outstanding.isEmpty && s'.pipe.valid then v1.lift (s'.emit [.drop]) else v1
+  let s'' := v2.view
+  some (v2, ["B " ++ tag ++ " " ++ " ".intercalate (pipeTags s.pipe s''.pipe ++ (if s.pipe.wbroken then ["after-write-error"] else []) ++
                  (if s''.pipe.wbroken && !s.pipe.wbroken then
                     (if s''.pipe.written.length > s.pipe.written.length + 1 then ["epipe-mid-batch"] else ["epipe-in-commit"]) else []) ++
                  (if s''.stuck && !s.stuck then ["send-buffer-stuck"] else []) ++
-                 (if s''.wq.length < s.wq.length then ["wq-used"] else []))]
+                 (if s''.wq.length < s.wq.length then ["wq-used"] else []) ++
+                 (if v.m.clients.length > 1 then ["multi-done"] else []) ++
+                 (if v.m.clients.length > 1 && !s.pipe.valid then ["multi-late-commit"] else []) ++
+                 (if !s.pipe.valid && v.m.clients.any (fun cl => cl.srv.pipe.valid && cl.tok.pos == ((v.m.clients[v.cur]?).map (·.tok.pos)).getD 0)
+                    then ["stale-token-slot-reused"] else []))]
                ++ showOut s.pipe s''.pipe)
 
 def deliveredLines (ds : List Delivered) : List String :=
@@ -124,12 +167,19 @@ def scriptTags (s : Server) (ds : List Delivered) : List String :=
     (if acts.contains .cleanup then ["h-cleanup"] else []) ++
     (if acts.contains .keep && acts.any (fun a => match a with | .body _ => true | _ => false) then ["h-keep-and-body"] else [])
 
-def doSeg (s : Server) (seg : Bytes) : Server × List String :=
-  let (s', ds, st) := s.seg cfg seg
+def doSeg (v : Sv) (seg : Bytes) : Sv × List String :=
+  let s := v.view
+  let (_, ds, st) := s.seg cfg seg
+  let v' := v.apply (.seg seg)
+  let s' := v'.view
   let stl := match st with | .threw => ["P exception"] | .hang => ["P hang"] | .ok => []
-  (s', ["B " ++ " ".intercalate (ds.map (fun _ => "req-srv") ++ scriptTags s ds ++ pipeTags s.pipe s'.pipe ++
+  let others := (v.m.clients.filter (·.srv.pipe.valid)).length
+  (v', ["B " ++ " ".intercalate (ds.map (fun _ => "req-srv") ++ scriptTags s ds ++ pipeTags s.pipe s'.pipe ++
           (if s.conn.closed && s.pipe.valid then ["seg-after-close"] else []) ++
-          (if s'.pipe.wbroken && !s.pipe.wbroken then ["epipe-in-seg"] else []))] ++
+          (if s'.pipe.wbroken && !s.pipe.wbroken then ["epipe-in-seg"] else []) ++
+          (if v.m.clients.length > 1 then ["multi-seg"] else []) ++
+          (if v.m.clients.length > 1 && !s.conn.buf.isEmpty then ["multi-seg-resumes"] else []) ++
+          (if (MServer.segStops s seg).isSome && others > 1 then ["multi-handler-stop"] else []))] ++
        deliveredLines ds ++ stl ++
        -- after an exception the loop is not run again: a pending close of the socket is not seen by the client
        (showOut s.pipe s'.pipe).filter (fun l => !(st == .threw && l == "P eof")))
@@ -146,7 +196,8 @@ def parseScript (spec : String) : Option HScript :=
   levels.mapM fun lv => if lv == "-" then some [] else (lv.splitOn ".").mapM parseAct
 
 def poisonOps : List String :=
-  ["seg", "done", "doneN", "doneR", "rel", "cclose", "dclose", "dcloseN", "cdone", "chalf", "chalfS", "wfail", "sstop", "sclean", "wq", "rseg"]
+  ["seg", "done", "doneN", "doneR", "rel", "cclose", "dclose", "dcloseN", "cdone", "chalf", "chalfS", "wfail", "sstop", "sclean", "wq", "rseg",
+   "conn", "sstart"]
 
 /-- `p` pass, `a` EAGAIN, `e` EPIPE, `s<n>` short count -/
 def parseWAns (w : String) : Option WAns :=
@@ -158,9 +209,9 @@ def wqTags (q : List WAns) : String :=
   " ".intercalate (q.map fun a => match a with
     | .pass => "wq-pass" | .short _ => "wq-short" | .again => "wq-again" | .epipe => "wq-epipe")
 
-def stepLine (m : Mode) (line : String) : Mode × List String :=
+def stepLine0 (m : Mode) (line : String) : Mode × List String :=
   let ws := words line
-  let poisoned := match m with | .server s => s.poisoned | _ => false
+  let poisoned := match m with | .server v => v.m.poisoned | _ => false
   if poisoned && (match ws with | w :: _ => poisonOps.contains w | [] => false) then (m, ["P poisoned"]) else
   match ws with
   | [] => (m, [])
@@ -180,137 +231,164 @@ def stepLine (m : Mode) (line : String) : Mode × List String :=
     | none => (m, ["bad-op"])
   | ["srv"] =>
     match m with
-    | .fresh => (.server {}, ["P srv"])
+    | .fresh => (.server ⟨({} : MServer).step .conn, 0⟩, ["P srv"])
     | _ => (m, ["bad-op"])
   | ["srv", k] =>
     -- the first k accept() calls of the listener fail (EMFILE, ECONNABORTED …): the connection is accepted in a later pass
     match k.toNat?, m with
-    | some k, .fresh => if k ≥ 1 && k ≤ 5 then (.server {}, ["B accept-errors", "P srv"]) else (m, ["bad-op"])
+    | some k, .fresh => if k ≥ 1 && k ≤ 5 then (.server ⟨({} : MServer).step .conn, 0⟩, ["B accept-errors", "P srv"]) else (m, ["bad-op"])
     | _, _ => (m, ["bad-op"])
+  | ["conn"] =>
+    -- one more client connects (accepted at once while the server is running; refused to try otherwise)
+    match m with
+    | .server v =>
+      if v.m.state != .running || v.m.clients.length ≥ 8 then (m, ["bad-op"]) else
+      let m' := v.m.step .conn
+      let reused := match m'.clients.getLast? with
+        | some cl => v.m.clients.any (fun o => o.tok.pos == cl.tok.pos)
+        | none => false
+      (.server { v with m := m' }, ["B conn" ++ (if reused then " slot-reused" else "") ++
+          (if (v.m.clients.filter (·.srv.pipe.valid)).length ≥ 1 then " conn-beside-live" else ""), "P conn " ++ toString v.m.clients.length])
+    | _ => (m, ["bad-op"])
+  | ["on", k] =>
+    match k.toNat?, m with
+    | some k, .server v => if k < v.m.clients.length then (.server { v with cur := k }, ["P on " ++ toString k]) else (m, ["bad-op"])
+    | _, _ => (m, ["bad-op"])
+  | ["sstart"] =>
+    match m with
+    | .server v =>
+      let m' := v.m.step .start
+      (.server { v with m := m' }, ["B sstart" ++ (if v.m.state == .inited then " restarted" else ""),
+                                     "P sstart " ++ (if v.m.state == .inited then "1" else "0")])
+    | _ => (m, ["bad-op"])
   | ["wq", spec] =>
     match (spec.splitOn ",").mapM parseWAns, m with
-    | some q, .server s =>
+    | some q, .server v =>
       if q.length > 8 then (m, ["bad-op"]) else
-      (.server (s.setWq q), ["B wq " ++ wqTags q ++ (if s.outstanding.length > 1 then " wq-batch" else ""), "P wq"])
+      (.server { v with m := v.m.step (.wq q) }, ["B wq " ++ wqTags q ++ (if v.view.outstanding.length > 1 then " wq-batch" else ""), "P wq"])
     | _, _ => (m, ["bad-op"])
   | ["rseg", h] =>
     -- the client sends a segment, the server's readv fails with ECONNRESET: torn down, the segment is never parsed
     match bytesOfHex h, m with
-    | some b, .server s =>
+    | some b, .server v =>
+      let s := v.view
       if b.isEmpty || s.cclosed then (m, ["bad-op"]) else
-      if s.halfSpec then (m, ["B seg-after-half-close", "P out -", "M shutdown -"]) else
-      let s' := s.rerr
-      (.server s', ["B rseg " ++ (if s.pipe.valid then "read-error-live" else "read-error-after-drop") ++
-          (if s.outstanding.isEmpty then "" else " read-error-outstanding")] ++ showOut s.pipe s'.pipe)
+      if s.halfSpec then (m, ["B seg-after-half-close", "P out -"]) else
+      let v' := v.apply .rerr
+      (.server v', ["B rseg " ++ (if s.pipe.valid then "read-error-live" else "read-error-after-drop") ++
+          (if s.outstanding.isEmpty then "" else " read-error-outstanding")] ++ showOut s.pipe v'.view.pipe)
     | _, _ => (m, ["bad-op"])
   | ["sync", i, h] =>
     match i.toNat?, bytesOfHex h, m with
-    | some i, some b, .server s =>
-      if (s.scripts.lookup i).isSome then (m, ["bad-op"])
-      else (.server { s with scripts := (i, [[.body b]]) :: s.scripts }, ["P sync"])
+    | some i, some b, .server v =>
+      if (v.view.scripts.lookup i).isSome then (m, ["bad-op"])
+      else (.server (v.apply (.script i [[.body b]])), ["P sync"])
     | _, _, _ => (m, ["bad-op"])
   | ["script", i, spec] =>
     match i.toNat?, parseScript spec, m with
-    | some i, some sc, .server s =>
-      if (s.scripts.lookup i).isSome then (m, ["bad-op"])
-      else (.server { s with scripts := (i, sc) :: s.scripts }, ["P script"])
+    | some i, some sc, .server v =>
+      if (v.view.scripts.lookup i).isSome then (m, ["bad-op"])
+      else (.server (v.apply (.script i sc)), ["P script"])
     | _, _, _ => (m, ["bad-op"])
   | ["seg", h] =>
     match bytesOfHex h, m with
-    | some b, .server s =>
+    | some b, .server v =>
       if b.isEmpty then (m, ["bad-op"]) else
-      if s.halfSpec then (m, ["B seg-after-half-close", "P out -", "M shutdown -"]) else
-      let (s', ls) := doSeg s b; (.server s', ls)
+      if v.view.halfSpec then (m, ["B seg-after-half-close", "P out -"]) else
+      let (v', ls) := doSeg v b; (.server v', ls)
     | _, _ => (m, ["bad-op"])
   | ["doneN", i, n, b] =>
     match i.toNat?, n.toNat?, b.toNat?, m with
-    | some i, some n, some b, .server s =>
+    | some i, some n, some b, .server v =>
       if n > 2000000 || b > 255 then (m, ["bad-op"]) else
-      match doDone "doneN" s i { status := 200, body := List.replicate n (UInt8.ofNat b) } with
+      match doDone "doneN" v i { status := 200, body := List.replicate n (UInt8.ofNat b) } with
       | none => (m, ["bad-op"])
-      | some (s', ls) => (.server s', ls)
+      | some (v', ls) => (.server v', ls)
     | _, _, _, _ => (m, ["bad-op"])
   | ["done", i, h] =>
     match i.toNat?, bytesOfHex h, m with
-    | some i, some b, .server s =>
-      match doDone "done" s i { status := 200, body := b } with
+    | some i, some b, .server v =>
+      match doDone "done" v i { status := 200, body := b } with
       | none => (m, ["bad-op"])
-      | some (s', ls) => (.server s', ls)
+      | some (v', ls) => (.server v', ls)
     | _, _, _ => (m, ["bad-op"])
   | ["doneR", i, code, kvs, h] =>
     match i.toNat?, code.toNat?, parseKVs? kvs, bytesOfHex h, m with
-    | some i, some code, some hdrs, some b, .server s =>
+    | some i, some code, some hdrs, some b, .server v =>
       if code > 999 then (m, ["bad-op"]) else
-      match doDone "doneR" s i { status := code, headers := hdrs, body := b } with
+      match doDone "doneR" v i { status := code, headers := hdrs, body := b } with
       | none => (m, ["bad-op"])
-      | some (s', ls) => (.server s', ls)
+      | some (v', ls) => (.server v', ls)
     | _, _, _, _, _ => (m, ["bad-op"])
   | ["rel", i] =>
     match i.toNat?, m with
-    | some i, .server s =>
-      match doDone "rel-untouched" s i ((s.keptResp.lookup i).getD {}) with
+    | some i, .server v =>
+      match doDone "rel-untouched" v i ((v.view.keptResp.lookup i).getD {}) with
       | none => (m, ["bad-op"])
-      | some (s', ls) => (.server s', ls)
+      | some (v', ls) => (.server v', ls)
     | _, _ => (m, ["bad-op"])
   | ["cclose"] =>
     match m with
-    | .server s =>
-      match s.cclose none false with
-      | none => (m, ["bad-op"])
-      | some s' => (.server s', ["B cclose " ++ (if s.pipe.valid then "peer-close-live" else "peer-close-after-drop") ++
-                                  (if s.outstanding.isEmpty then "" else " peer-close-outstanding"), "P closed"])
+    | .server v =>
+      let s := v.view
+      if s.cclosed then (m, ["bad-op"]) else
+      (.server (v.apply (.cclose none false)), ["B cclose " ++ (if s.pipe.valid then "peer-close-live" else "peer-close-after-drop") ++
+          (if s.outstanding.isEmpty then "" else " peer-close-outstanding") ++
+          (if (v.m.clients.filter (·.srv.pipe.valid)).length > 1 then " multi-peer-close" else ""), "P closed"])
     | _ => (m, ["bad-op"])
   | ["dclose", i, h] =>
     match i.toNat?, bytesOfHex h, m with
-    | some i, some b, .server s =>
-      match s.cclose (some (i, { status := 200, body := b })) false with
-      | none => (m, ["bad-op"])
-      | some s' => (.server s', ["B dclose same-pass-commit-and-peer-close", "P closed"])
+    | some i, some b, .server v =>
+      if v.view.cclosed || !v.view.outstanding.contains i then (m, ["bad-op"]) else
+      (.server (v.apply (.cclose (some (i, { status := 200, body := b })) false)), ["B dclose same-pass-commit-and-peer-close", "P closed"])
     | _, _, _ => (m, ["bad-op"])
   | ["dcloseN", i, n, b] =>
     match i.toNat?, n.toNat?, b.toNat?, m with
-    | some i, some n, some b, .server s =>
+    | some i, some n, some b, .server v =>
       if n > 2000000 || b > 255 then (m, ["bad-op"]) else
-      match s.cclose (some (i, { status := 200, body := List.replicate n (UInt8.ofNat b) })) false with
-      | none => (m, ["bad-op"])
-      | some s' => (.server s', ["B dcloseN peer-close-with-unsent-bytes", "P closed"])
+      if v.view.cclosed || !v.view.outstanding.contains i then (m, ["bad-op"]) else
+      (.server (v.apply (.cclose (some (i, { status := 200, body := List.replicate n (UInt8.ofNat b) })) false)),
+        ["B dcloseN peer-close-with-unsent-bytes", "P closed"])
     | _, _, _, _ => (m, ["bad-op"])
   | ["cdone", i, h] =>
     match i.toNat?, bytesOfHex h, m with
-    | some i, some b, .server s =>
-      match s.cclose (some (i, { status := 200, body := b })) true with
-      | none => (m, ["bad-op"])
-      | some s' => (.server s', ["B cdone commit-after-peer-close-epipe", "P closed"])
+    | some i, some b, .server v =>
+      if v.view.cclosed || !v.view.outstanding.contains i then (m, ["bad-op"]) else
+      (.server (v.apply (.cclose (some (i, { status := 200, body := b })) true)), ["B cdone commit-after-peer-close-epipe", "P closed"])
     | _, _, _ => (m, ["bad-op"])
   | ["chalf"] =>
     match m with
-    | .server s =>
-      match s.chalf with
-      | none => (m, ["bad-op"])
-      | some s' => (.server s', ["B chalf " ++ (if s.pipe.valid then (if s.outstanding.isEmpty then "half-close-idle" else "half-close-outstanding") else "half-close-after-drop")]
-                     ++ showOut s.pipe s'.pipe)
+    | .server v =>
+      let s := v.view
+      if s.cclosed then (m, ["bad-op"]) else
+      let v' := v.apply .chalf
+      (.server v', ["B chalf " ++ (if s.pipe.valid then (if s.outstanding.isEmpty then "half-close-idle" else "half-close-outstanding") else "half-close-after-drop")]
+                     ++ showOut s.pipe v'.view.pipe)
     | _ => (m, ["bad-op"])
   | ["chalfS"] =>
     -- what the PROPERTY asks for: outstanding responses are still written, then the server closes
     match m with
-    | .server s =>
+    | .server v =>
+      let s := v.view
       if s.cclosed then (m, ["bad-op"]) else
       let s1 : Server := { s with halfSpec := true, conn := { s.conn with dead := true, buf := [] } }
       let s2 := if s1.outstanding.isEmpty && s1.pipe.valid then s1.emit [.drop] else s1
-      (.server s2, ["B chalfS"] ++ showOut s.pipe s2.pipe)
+      (.server (v.lift s2), ["B chalfS"] ++ showOut s.pipe s2.pipe)
     | _ => (m, ["bad-op"])
   | ["wfail"] =>
     match m with
-    | .server s => (.server s.wfail, ["B wfail", "P wfail"])
+    | .server v => (.server (v.apply .wfail), ["B wfail", "P wfail"])
     | _ => (m, ["bad-op"])
   | [op] =>
     -- the application stops / cleans up the server outside any handler (contexts may still be held)
     match m with
-    | .server s =>
+    | .server v =>
       if op == "sstop" || op == "sclean" then
-        let s' := s.sstop
-        (.server s', ["B " ++ op ++ (if s.pipe.valid then " h-stop-outside" else " stop-after-drop") ++
-            (if s.outstanding.isEmpty then "" else " stop-outstanding")] ++ showOut s.pipe s'.pipe)
+        let s := v.view
+        let v' : Sv := { v with m := v.m.step (.stop (op == "sclean")) }
+        let live := (v.m.clients.filter (·.srv.pipe.valid)).length
+        (.server v', ["B " ++ op ++ (if s.pipe.valid then " h-stop-outside" else " stop-after-drop") ++
+            (if s.outstanding.isEmpty then "" else " stop-outstanding") ++ (if live > 1 then " multi-stop" else "")] ++ showOut s.pipe v'.view.pipe)
       else (m, ["bad-op"])
     | _ => (m, ["bad-op"])
   | ["upath", h] =>
@@ -386,5 +464,17 @@ def stepLine (m : Mode) (line : String) : Mode × List String :=
       (m, ["B mkres", "P mkres " ++ hexOfBytes (Respond.mk ve code hs bo).render])
     | _, _, _ => (m, ["bad-op"])
   | _ => (m, ["bad-op"])
+
+/-- ops that only switch the connection the following lines are about, or are answered without touching the server -/
+def quietOps : List String := ["on", "case", "feed", "method", "version", "upath", "uhost", "url", "mkpath", "mkurl", "enc", "dec", "mkreq", "mkres"]
+
+def stepLine (m : Mode) (line : String) : Mode × List String :=
+  let (m', ls) := stepLine0 m line
+  let op := (words line).headD ""
+  if ls == ["bad-op"] || ls == ["P poisoned"] || ls.isEmpty || quietOps.contains op then (m', ls) else
+  match m, m' with
+  | .server v, .server v' => (m', ls ++ crossLines v v' (ls.contains "P exception"))
+  | .fresh, .server v' => (m', ls ++ crossLines ⟨{}, 0⟩ v' false)
+  | _, _ => (m', ls)
 
 def main : IO Unit := runDriver Mode.fresh stepLine
